@@ -29,10 +29,23 @@ def make(env, kind, tag, p):
     import gearpy.units as gu
     J = gu.InertiaMoment(1, 'kgm^2')
     mod = p.get('module')
+    mu = p.get('mu', 'mm')              # the unit the module is expressed in (its magnitude is given in mm)
+    k_mu = {'mm': 1.0, 'cm': 0.1, 'dm': 0.01, 'm': 0.001}[mu]
     if mod == 'sym':
-        mod = gu.Length(env.real('m_' + tag, lo=0, lo_open=True), 'mm')
+        if 'mu' in p:
+            # mixed-unit cells: a bounded range, so that the rounding of the unit factors (doubles are modelled as reals)
+            # stays far below the library's comparison tolerance
+            m_mm = env.real('m_' + tag, lo=0.01, hi=1000)
+        else:
+            m_mm = env.real('m_' + tag, lo=0, lo_open=True)
+        mod = gu.Length(m_mm if mu == 'mm' else m_mm * k_mu, mu)
     elif mod is not None:
-        mod = gu.Length(mod, 'mm')
+        mod = gu.Length(mod if mu == 'mm' else mod * k_mu, mu)
+
+    def ang(deg, key):
+        # angles are given in degrees; 'hu' / 'pu' re-express helix / pressure angle in arcmin (exact: 60 per degree)
+        u = p.get(key, 'deg')
+        return gu.Angle(deg * 60 if u == 'arcmin' else deg, u)
     if kind == 'motor':
         return mo.DCMotor(name=tag, inertia_moment=J, no_load_speed=gu.AngularSpeed(100, 'rad/s'),
                           maximum_torque=gu.Torque(1, 'Nm'))
@@ -42,16 +55,25 @@ def make(env, kind, tag, p):
         return mo.SpurGear(name=tag, n_teeth=p.get('n', 20), inertia_moment=J, module=mod)
     if kind == 'helical':
         return mo.HelicalGear(name=tag, n_teeth=p.get('n', 20), inertia_moment=J,
-                              helix_angle=gu.Angle(p.get('helix', 20.0), 'deg'), module=mod)
+                              helix_angle=ang(p.get('helix', 20.0), 'hu'), module=mod)
     if kind == 'worm':
         return mo.WormGear(name=tag, n_starts=p.get('starts', 2), inertia_moment=J,
-                           helix_angle=gu.Angle(p.get('helix', 10.0), 'deg'),
-                           pressure_angle=gu.Angle(p.get('pa', 20.0), 'deg'))
+                           helix_angle=ang(p.get('helix', 10.0), 'hu'),
+                           pressure_angle=ang(p.get('pa', 20.0), 'pu'))
     if kind == 'wheel':
         return mo.WormWheel(name=tag, n_teeth=p.get('n', 30), inertia_moment=J,
-                            helix_angle=gu.Angle(p.get('helix', 10.0), 'deg'),
-                            pressure_angle=gu.Angle(p.get('pa', 20.0), 'deg'), module=mod)
+                            helix_angle=ang(p.get('helix', 10.0), 'hu'),
+                            pressure_angle=ang(p.get('pa', 20.0), 'pu'), module=mod)
     raise KeyError(kind)
+
+
+def _si_exact(q):
+    """SI magnitude of a Length without rounding: a proxy, or the exact rational of the stored double times the factor"""
+    from oracles import si
+    f = si.SI['Length'][q.unit]
+    if isinstance(q.value, SR):
+        return SR(q.value.t * z3.RealVal(f))
+    return Fraction(q.value) * f
 
 
 ATTRS = ['drives', 'driven_by', 'mating_role', 'master_gear_ratio', 'master_gear_efficiency', 'self_locking']
@@ -121,13 +143,14 @@ class Declare(HarnessBase):
             rec['msg'] = str(e)[:90]
         rec['before'] = before
         rec['after'] = (state(a, names), state(b, names))
-        rec['modules'] = (a.module.value if getattr(a, 'module', None) is not None else None,
-                          b.module.value if getattr(b, 'module', None) is not None else None)
+        rec['_modules'] = (_si_exact(a.module) if getattr(a, 'module', None) is not None else None,
+                          _si_exact(b.module) if getattr(b, 'module', None) is not None else None)
         return rec
 
     # ---- oracle --------------------------------------------------------------
-    def _compatible(self, rec):
-        """(is the pair compatible as a z3 Bool, reason)"""
+    def _compatible(self, rec, weak=False):
+        """is the pair compatible (z3 Bool). weak: modules within the library's comparison tolerance (1e-12 in the
+        left operand's unit, i.e. at most 1e-12 m for the units used here; recorded C05 finding) count as equal"""
         f, ka, kb = self.func, self.ka, self.kb
         if self.same:
             return z3.BoolVal(False)
@@ -143,10 +166,13 @@ class Declare(HarnessBase):
             if ha and self.pa.get('helix', 20.0 if ka == 'helical' else 10.0) != \
                     self.pb.get('helix', 20.0 if kb == 'helical' else 10.0):
                 return z3.BoolVal(False)
-            ma, mb = rec['modules']
+            ma, mb = rec['_modules']
             c = z3.BoolVal(True)
             if ma is not None and mb is not None:
                 c = T(ma) == T(mb)
+                if weak:
+                    band = z3.RealVal(Fraction(2, 10 ** 12))
+                    c = z3.And(T(ma) - T(mb) <= band, T(mb) - T(ma) <= band)
             x = T(rec['x'])
             return z3.And(c, x >= 0, x <= 1)
         if f == 'worm':
@@ -192,7 +218,7 @@ class Declare(HarnessBase):
             obs.append(holds('rel.rejection_has_a_reason', reason, info='%s: %s' % (rec['raised'], rec.get('msg'))))
             return obs
         # accepted
-        obs.append(holds('rel.incompatible_pair_rejected', comp, info='accepted: %s' % (self.name,)))
+        obs.append(holds('rel.incompatible_pair_rejected', self._compatible(rec, weak=True), info='accepted: %s' % (self.name,)))
         A, B = after
         obs.append(holds('rel.linked_mutually', A.get('drives') == 'b' and B.get('driven_by') == 'a',
                          info='drives=%r driven_by=%r' % (A.get('drives'), B.get('driven_by'))))
@@ -268,6 +294,19 @@ def specs(tier, seed):
     for hx in (0.0, 20.0):
         cells.append(('gear', 'spur', 'helical', (('n', 12),), (('helix', hx), ('n', 30)), None, False))
         cells.append(('gear', 'helical', 'spur', (('helix', hx), ('n', 12)), (('n', 30),), None, False))
+    # the quantities the compatibility tests compare are expressed in DIFFERENT units on the two elements, the larger
+    # magnitude on either side
+    for mua, mub in (('cm', 'mm'), ('mm', 'cm'), ('m', 'dm')):
+        cells.append(('gear', 'spur', 'spur', (('module', 'sym'), ('mu', mua), ('n', 12)), (('module', 'sym'), ('mu', mub), ('n', 30)), None, False))
+        cells.append(('gear', 'spur', 'spur', (('module', 2.0), ('mu', mua), ('n', 12)), (('module', 1.0), ('mu', mub), ('n', 30)), None, False))
+        cells.append(('gear', 'spur', 'spur', (('module', 1.0), ('mu', mua), ('n', 12)), (('module', 2.0), ('mu', mub), ('n', 30)), None, False))
+        cells.append(('gear', 'spur', 'spur', (('module', 1.0), ('mu', mua), ('n', 12)), (('module', 1.0), ('mu', mub), ('n', 30)), None, False))
+    for hua, hub in (('deg', 'arcmin'), ('arcmin', 'deg')):
+        for ha, hb in ((20.0, 20.0), (20.0, 15.0), (15.0, 20.0)):
+            cells.append(('gear', 'helical', 'helical', (('helix', ha), ('hu', hua), ('n', 15)), (('helix', hb), ('hu', hub), ('n', 45)), None, False))
+        for pa_a, pa_b in ((20.0, 20.0), (25.0, 20.0), (20.0, 25.0), (14.5, 30.0), (30.0, 14.5)):
+            cells.append(('worm', 'worm', 'wheel', (('pa', pa_a), ('pu', hua), ('helix', 5.0)), (('pa', pa_b), ('pu', hub), ('helix', 5.0)), None, False))
+            cells.append(('worm', 'wheel', 'worm', (('pa', pa_a), ('pu', hua), ('helix', 5.0)), (('pa', pa_b), ('pu', hub), ('helix', 5.0)), None, False))
     pas = [14.5, 20.0, 25.0, 30.0]
     for pa in pas:
         helixes = [0.0, 5.0, float(MAXHELIX[pa])] if tier == 'quick' else [0.0, 1.0, 5.0, 10.0, 15.0, float(MAXHELIX[pa])]
@@ -309,15 +348,16 @@ REQUIRED_TRIGGERS = {'quick': ('rel.linked_mutually', 'rel.roles', 'rel.ratio', 
 BOUNDS = {
     'quick': 'all 6x6 ordered pairs of element kinds (+ an element with itself) x the three relation functions; spur '
              'pairs with modules symbolic/absent/fixed (9), helical pairs with equal/unequal/zero helix, spur with helical (helix 0 and 20 deg, both orders), worm matings in '
-             'both orientations at all four pressure angles x helix {0, 5 deg, table maximum}, mismatching pressure '
-             'angles; the call under test also on elements that already carry a relation; efficiency / friction '
-             'coefficient: every real number (in and out of range); modules: every positive real',
+             'both orientations at all four pressure angles x helix {0, 5 deg, table maximum}, mismatching pressure angles; modules, helix angles and pressure angles of the two elements expressed in different units (mm/cm/dm/m, deg/arcmin) with the larger magnitude on either side; '
+             ' the call under test also on elements that already carry a relation; efficiency / friction '
+             'coefficient: every real number (in and out of range); modules: every positive real (0.01 mm .. 1 m in the mixed-unit cells)',
     'thorough': 'helix grid {0,1,5,10,15,max} per pressure angle',
 }
 OUTSIDE = ('worm and wheel with different helix angles (the documentation does not say whose angle enters the formula); '
            'sequences of more than two declarations; a helical gear mated with a worm wheel through add_gear_mating')
 STUBS = ['gearpy.units.units.sin/cos/tan guarded (angles are concrete configuration)', 'gearpy.units.unit_base.fabs -> ite']
-ASSUMPTIONS = ['doubles as reals', 'the self-locking threshold is decided up to a 1e-9 band (cos/tan are libm values)']
+ASSUMPTIONS = ['doubles as reals', 'the self-locking threshold is decided up to a 1e-9 band (cos/tan are libm values)',
+               'two modules given in different units that differ by less than 2e-12 m may be accepted as equal (the library compares with an absolute tolerance: recorded C05 finding); any larger difference must be rejected']
 EXPLANATION = ('Symbolic execution of the real add_gear_mating / add_worm_gear_mating / add_fixed_joint and of the setters they '
                'call, with the efficiency, friction coefficient and modules as unconstrained solver variables; the public '
                'relation state of both elements is compared before and after every call.')
